@@ -405,3 +405,35 @@ pub fn x_map(idx: u64) -> RMap {
     }
     RMap { sources: vec!["a".into(), "b".into()], names: vec!["n".into()], tokens: toks, ..Default::default() }
 }
+
+// ---------------------------------------------------------------------------------
+// slice G ("long"): maps with many tokens, deterministic patterns
+
+pub const LONG_SIZES: [usize; 12] = [15, 16, 17, 31, 32, 33, 63, 64, 65, 127, 200, 1000];
+
+pub fn long_count() -> u64 {
+    LONG_SIZES.len() as u64 * 3
+}
+
+pub fn long_map(idx: u64) -> RMap {
+    let n = LONG_SIZES[(idx / 3) as usize];
+    let pattern = idx % 3;
+    let mut toks = vec![];
+    for i in 0..n as u32 {
+        let (gl, gc) = match pattern {
+            0 => (0, 2 * i),
+            1 => (i, (i * 7) % 5),
+            _ => (i / 7, (i % 7) * 3),
+        };
+        let src = if pattern == 2 && i % 5 == 4 {
+            None
+        } else {
+            // zig-zag original positions: negative deltas on every other token
+            let ol = if i % 2 == 0 { i } else { 1000 - i };
+            let oc = (i * 37) % 91;
+            Some((i % 3, ol, oc, if i % 3 == 0 { Some(i % 2) } else { None }))
+        };
+        toks.push(RTok::new(gl, gc, src));
+    }
+    RMap { sources: vec!["a.js".into(), "b.js".into(), "c.js".into()], names: vec!["n".into(), "m".into()], tokens: toks, ..Default::default() }
+}
